@@ -472,9 +472,8 @@ func (p *Prop[C]) One(c C) *Failure {
 		if x.sample != nil {
 			return x.sample
 		}
-		var v any
-		json.Unmarshal(raw, &v)
-		return v
+		// raw JSON, not a decoded any: decoding would turn 64-bit integers into float64
+		return json.RawMessage(append([]byte(nil), raw...))
 	})
 	return nil
 }
